@@ -9,5 +9,5 @@ CONSTANTS
   SecondCheck = TRUE
   Filter = TRUE
 CONSTRAINT Hwm
-INVARIANTS NotDone AtMostOnce NoStaleInvoke QueueBound
+INVARIANTS AtMostOnce NoStaleInvoke QueueBound
 POSTCONDITION Accepted
